@@ -41,7 +41,9 @@ for f in sorted(glob.glob(os.path.join(ROOT, "harness/chk-*/checks.json"))):
     name = os.path.basename(os.path.dirname(f))
     engines.append({"name": name, "path": f"harness/{name}", "kind_free_text": "check binary (properties listed)", "serves_properties": sorted(json.load(open(f)))})
 if os.path.isdir(os.path.join(ROOT, "fuzz")):
-    engines.append({"name": "fuzz", "path": "fuzz", "kind_free_text": "cargo-fuzz (libFuzzer) targets with in-target oracles; run by thorough tiers", "serves_properties": []})
+    # properties whose check calls Ctx::fuzz (a [[bin]] of fuzz/Cargo.toml named in the check crate's fuzzapi.rs)
+    fuzz_props = sorted(i for i, t in table.items() if "libFuzzer target" in t.get("technique", ""))
+    engines.append({"name": "fuzz", "path": "fuzz", "kind_free_text": "cargo-fuzz (libFuzzer, ASan) targets whose body is the owning check's semantic oracle (check crate fuzzapi.rs); seeds/<target>/ replayed and proptest-mutated in both tiers, run_fuzz.sh with a fixed -runs per job by the thorough tier (vcore Ctx::fuzz); crash artifacts become replays/<ID>/found-fuzz_<target>-*.json", "serves_properties": fuzz_props})
 m = {
     "version": 1,
     "setup_cmd": "./setup.sh",
